@@ -389,7 +389,7 @@ where
     H: Host,
     A: LoadableAsset + SeekableAsset,
 {
-    let _ = asset.seek(SeekFrom::End(0))?;
+    let file_size = asset.seek(SeekFrom::End(0))?;
     let mut cursor_pos = 0;
     asset.seek(SeekFrom::Start(0))?;
 
@@ -443,6 +443,12 @@ where
         // Id which is not a valid string can't match any known block, so it is skipped
         let id_str = from_utf8(id_bytes).unwrap_or_default().to_uppercase();
         cursor_pos += ZXST_BLOCK_HEADER_SIZE;
+
+        // Size is an arbitrary value from the file, it should be validated before the
+        // allocation of the buffer: block can't be bigger than the rest of the file
+        if size as usize > file_size.saturating_sub(cursor_pos) {
+            return Err(SnapshotLoadError::InvalidSZXFile.into());
+        }
 
         // ZXST Block Data
         asset.seek(SeekFrom::Start(cursor_pos))?;
